@@ -130,9 +130,29 @@ def l1_chunk(args):
 def pileup_world(kind, param, annotated):
     """real constants: COVERAGE_BIN 256, MAX_REGION_LEN 32768, MIN_READS_TO_SPLIT 1024"""
     from vlib import worlds as W, syn
-    w = {"chroms": {"chr1": 90000, "chr2": 9000}, "genes": [], "reads": [], "sites": []}
+    w = {"chroms": {"chr1": 90000 if kind != "spanning" else 180000, "chr2": 9000}, "genes": [], "reads": [], "sites": []}
     reads = []
-    if annotated:
+    if kind == "spanning":
+        # a 160-kb five-exon gene; full-length reads overlap every sub-region the locus is cut into (>=3) and must be reported once
+        ex = [[5001, 5400], [45001, 45400], [85001, 85400], [125001, 125400], [165001, 165600]]
+        if annotated:
+            w["genes"].append({"id": "GL", "chr": "chr1", "strand": "+", "transcripts": [{"id": "TL", "exons": ex}]})
+            syn.plant_for_transcripts(w)
+        else:
+            W.add_sites_for_blocks(w, "chr1", ex, "+")
+        k = 0
+        for i in range(param):
+            reads.append(W.read_of("full%d" % i, "chr1", ex))
+        # a deep pile on the middle exon makes the thin intronic coverage (full-length + one two-exon read) a relative valley
+        for ei, depth in ((0, 30), (1, 500), (2, 500), (3, 500), (4, 30)):
+            e = ex[ei]
+            for i in range(depth):
+                reads.append(W.read_of("mono%d" % k, "chr1", [[e[0] + 5 + (i % 40), e[1] - 5 - (i % 30)]], polya=False))
+                k += 1
+        for a, b in zip(ex, ex[1:]):
+            reads.append(W.read_of("two%d" % k, "chr1", [a, b], polya=False))
+            k += 1
+    elif annotated:
         w["genes"].append({"id": "G1", "chr": "chr1", "strand": "+", "transcripts": [
             {"id": "T1", "exons": [[2001, 2400], [3001, 3400], [4001, 4600]]}]})
         w["genes"].append({"id": "G2", "chr": "chr1", "strand": "+", "transcripts": [
@@ -285,6 +305,8 @@ def run(ctx):
                 jobs.append(("long-sparse", nb, annotated, mode, ctx.scratch))
             for p in ((3,) if quick else (1, 3, 12)):
                 jobs.append(("tail-short", p, annotated, mode, ctx.scratch))
+            for p in ((2,) if quick else (1, 2, 5)):
+                jobs.append(("spanning", p, annotated, mode, ctx.scratch))
     nrec = 0
     for key, errs, nb in core.pmap(l3_case, jobs):
         nrec += nb
